@@ -40,7 +40,7 @@ def run_program(prog: dict) -> list[dict]:
             groups=groups,
         )
         events.append(dict(id=f"{prog['pid']}:{step}", op=op, A=preA, B=preB, out=out))
-        if not err and res is not None:
+        if not err and res is not None and op["name"] != "peek":
             A = res
         if len(A) > 6:  # keep permutation checks in the trace spec cheap
             A = A.subset(slice(0, 6))
